@@ -174,6 +174,14 @@ func (e *Engine) verifyFunc(fi *FuncInfo) *FuncResult {
 	}
 	entrySnap := st.clone()
 	c.entry = entrySnap
+	// lemma methods instantiated at entry (specification context: no obligation, the lemma's
+	// postcondition is assumed under its precondition; the lemma method is verified on its own)
+	if con != nil {
+		pre := c.contractEnv(fi, nil, bind, nil, nil)
+		for _, a := range con.Applies {
+			pre.eval(a.Expr, st)
+		}
+	}
 	// vacuity guard: the precondition must be satisfiable
 	c.addCover(st, "pre", fi.Decl.Pos())
 	// declared frame
